@@ -200,6 +200,8 @@ pub fn run(run: &mut Run) {
             let noop_expected = match &op {
                 Op::Insert(r, c) => m.contains(&(*r, *c)),
                 Op::Remove(r, c) => !m.contains(&(*r, *c)),
+                Op::InsertRow(r, cs) => cs.iter().all(|c| m.contains(&(*r, *c))),
+                Op::InsertCol(c, rs) => rs.iter().all(|r| m.contains(&(*r, *c))),
                 _ => false,
             };
             match &op {
@@ -231,7 +233,7 @@ pub fn run(run: &mut Run) {
             }
             if noop_expected && h != before {
                 l.violation(
-                    format!("{} of an already {} entry changed the matrix (== clone fails)", op_kind(&op), if matches!(op, Op::Insert(..)) { "present" } else { "absent" }),
+                    format!("{} of an already {} entry changed the matrix (== clone fails)", op_kind(&op), if matches!(op, Op::Remove(..)) { "absent" } else { "present" }),
                     detail("matrix != clone taken before the call".into(), &ops),
                 );
                 return;
